@@ -74,6 +74,13 @@ func (e *Engine) c9Begin(key uint64, cost int64) {
 	_, d.wasRes = d.resident[key]
 	d.tooBig = cost > max
 	d.fitsExp = !d.tooBig && !d.wasRes && cost <= max-used
+	if !e.plan.Flags.NoLowerMax {
+		// MaxCost may be lowered (atomically, without the policy lock) while the
+		// decision runs: the rules that compare with the capacity read here do
+		// not apply to such runs
+		d.fitsExp = false
+		d.lowering = true
+	}
 }
 
 func (e *Engine) poolMin(d *decision9) (int64, bool) {
@@ -120,6 +127,9 @@ func (e *Engine) c9Reject(key uint64) {
 	}
 	d.rejected = true
 	m, ok := e.poolMin(d)
+	if !ok && d.lowering {
+		return
+	}
 	if !ok {
 		e.violate("C09", "rejected-empty-pool", fmt.Sprintf("newcomer %#x (cost %d, max %d, used %d) out-voted although no candidate was sampled", key, d.cost, d.maxCost, d.used), 0)
 		return
@@ -142,7 +152,7 @@ func (e *Engine) c9Added(key uint64, added bool, nvict int) {
 		}
 	}
 	if !added {
-		if !(d.tooBig || d.wasRes || d.rejected) {
+		if !(d.tooBig || d.wasRes || d.rejected || d.lowering) {
 			e.violate("C09", "turned-away-without-cause", fmt.Sprintf("newcomer %#x cost %d (max %d used %d) not admitted: not too large, not resident, not out-voted", key, d.cost, d.maxCost, d.used), 0)
 		}
 		if d.rejected {
@@ -156,7 +166,7 @@ func (e *Engine) c9Added(key uint64, added bool, nvict int) {
 			probe(PrMultiVictim)
 		}
 		used, max, sum, _ := e.api.PolicyState()
-		if used > max {
+		if used > max && !d.lowering {
 			e.violate("C03", "over-capacity", fmt.Sprintf("admitting %#x (cost %d) left used=%d above MaxCost=%d", key, d.cost, used, max), 0)
 		}
 		if used != sum {
@@ -169,11 +179,11 @@ func (e *Engine) c9Added(key uint64, added bool, nvict int) {
 			if given == 0 && e.plan.Cfg.CostFn {
 				given = v.FnC
 			}
-			if given > max {
+			if given > max && !d.lowering {
 				e.violate("C03", "too-big-admitted", fmt.Sprintf("value %d (key %d) was given cost %d, larger than MaxCost %d, and was admitted (accounted as %d)", v.ID, v.Key, given, max, d.cost), 0)
 			}
 		}
-		if d.tooBig {
+		if d.tooBig && !d.lowering {
 			e.violate("C03", "too-big-admitted", fmt.Sprintf("item %#x with cost %d admitted although MaxCost was %d", key, d.cost, d.maxCost), 0)
 		}
 		if d.wasRes {
@@ -540,8 +550,7 @@ func (e *Engine) checkHistory() {
 	e.checkC14()
 	e.checkWaitApplied(ops)
 	e.checkIterDup(ops)
-	if e.plan.Flags.SingleClient && e.plan.Flags.AllFits && e.plan.Flags.Injective &&
-		e.plan.Cfg.ShouldUpdate != SURefuseAll && e.plan.Cfg.ShouldUpdate != SURefuseOdd {
+	if e.plan.Flags.SingleClient && e.plan.Flags.AllFits && e.plan.Flags.Injective {
 		e.checkModel(ops)
 	}
 }
@@ -917,6 +926,7 @@ const (
 	kDeletedDirty
 	kExpired
 	kSettled
+	kRefused // Resident(v) plus a refused newcomer still waiting in the write buffer
 )
 
 type kstate struct {
@@ -951,6 +961,28 @@ func (e *Engine) checkModel(ops []*opRec) {
 			}
 			v := e.val(o.Val)
 			s := &ks[o.Key]
+			// Config.ShouldUpdate refusing this value: an entry that is in the map
+			// stays as it is (value and expiration), and the newcomer is turned
+			// away by the policy later because the key is already accounted
+			refuses := e.plan.Cfg.ShouldUpdate == SURefuseAll || (e.plan.Cfg.ShouldUpdate == SURefuseOdd && v != nil && v.ID%2 == 1)
+			if refuses {
+				switch s.st {
+				case kResident:
+					// The entry stays, but the refused value is still queued as a new
+					// item: it is turned away if it is applied while the entry is
+					// accounted, and admitted if the entry has gone by then.
+					if certainlyUnexpired(s.v, o.RetT) {
+						*s = kstate{kRefused, s.v}
+					} else {
+						*s = kstate{st: kUnknown}
+					}
+				case kAbsent, kDeletedClean:
+					*s = kstate{kPending, v} // nothing to refuse against: a plain insert
+				default:
+					*s = kstate{st: kUnknown}
+				}
+				continue
+			}
 			if o.SetFlag == 2 && (s.st == kExpired || s.st == kResident || s.st == kPending || s.st == kSettled) {
 				// the Set replaced an entry that was in the map (possibly expired
 				// and not yet swept): an overwrite is visible immediately, and no
@@ -987,6 +1019,14 @@ func (e *Engine) checkModel(ops []*opRec) {
 					ks[i] = kstate{st: kAbsent}
 				case kUnknown:
 					ks[i] = kstate{st: kSettled}
+				case kRefused:
+					// the queued newcomer has been applied by now; it was turned away
+					// for certain only if the old entry was still unexpired then
+					if certainlyUnexpired(ks[i].v, o.RetT) {
+						ks[i].st = kResident
+					} else {
+						ks[i] = kstate{st: kSettled}
+					}
 				}
 			}
 		case OpGet, OpGetTTL:
@@ -1053,7 +1093,9 @@ func (e *Engine) checkModel(ops []*opRec) {
 					if hit && x != nil {
 						*s = kstate{kResident, x}
 					} else if !hit {
-						*s = kstate{st: kAbsent}
+						// nothing retrievable; an expired entry may still linger in the
+						// map until it is swept (it matters when ShouldUpdate refuses)
+						*s = kstate{st: kExpired}
 					}
 				}
 			}
@@ -1129,4 +1171,24 @@ func (e *Engine) checkIterDup(ops []*opRec) {
 			seen[id] = true
 		}
 	}
+}
+
+// checkFreshAfterCleanClear runs in the task that just returned from a Clear
+// during which no other call was in flight: the cache must be empty, its
+// capacity and metrics reset (C15). White box only (no public call: those are
+// yield sites in task context).
+func (e *Engine) checkFreshAfterCleanClear(invSeq uint64) {
+	snap := e.api.Snapshot()
+	if len(snap.Entries) != 0 || len(snap.KeyCosts) != 0 || snap.Used != 0 {
+		e.violate("C15", "clear-not-empty", fmt.Sprintf("Clear invoked at #%d returned (no other call in flight) leaving %d entries in the map, %d keys charged, used=%d", invSeq, len(snap.Entries), len(snap.KeyCosts), snap.Used), 0)
+	}
+	if snap.SetBufLen != 0 {
+		e.violate("C15", "clear-buffer", fmt.Sprintf("Clear invoked at #%d returned (no other call in flight) with %d items in the write buffer", invSeq, snap.SetBufLen), 0)
+	}
+	for i, x := range snap.Metrics {
+		if x != 0 {
+			e.violate("C15", "clear-metrics", fmt.Sprintf("after Clear (no other call in flight) metric #%d is %d", i, x), 0)
+		}
+	}
+	probe(PrFreshChecked)
 }
